@@ -415,6 +415,8 @@ class FieldHandler:
     def handle_keyword(self, field: Field) -> None:
         name = self._handle_param_name(field)
         if name is not None:
+            if any(desc.name == name for desc in self.parameter_descs):
+                field.report('Parameter "%s" was already documented' % (name,))
             # TODO: How should this be matched to the type annotation?
             self.parameter_descs.append(KeywordDesc(name=name, body=field.format()))
             if name in self.types:
